@@ -117,6 +117,9 @@ fn judge(p: &Pair) -> Option<(&'static str, String)> {
 }
 
 pub fn run(ctx: &Ctx) {
+    // the watchdog's clock also covers the harness's own oracle work (reference models, DOM enumeration);
+    // the limit is generous so that machine load cannot turn a slow case into a verdict
+    ctx.hang_limit_s.store(300, std::sync::atomic::Ordering::Relaxed);
     // ---- golden corpus ------------------------------------------------------------------
     let corp = corpus::load();
     let sub = "corpus";
